@@ -36,6 +36,7 @@ func init() {
 			{ID: "C01-R10", Title: "break/continue land at the loop's label heights (shared with C04-R3)", Floor: 5, Run: c04r3},
 			{ID: "C01-R11", Title: "declared names bind in the current scope (shared with C02-R9)", Floor: 3, Run: bindingDoesNotFallBackOutward},
 			{ID: "C01-R12", Title: "operands of a piped call are compiled as ordinary expressions", Floor: 2, Run: partialModeOffForOperands},
+			{ID: "C01-R13", Title: "derived fields of containers are updated by every mutator (shared with C16-R4)", Floor: 5, Run: c16r4},
 			{ID: "C01-R5", Title: "lexical scoping: nearest-scope-first resolution, per-activation variable storage (shared with C02-R2/R3)", Floor: 5, Run: func(c *core.Ctx) { c02r2(c); c02r3(c); c02r4(c); c02r5(c); c02r6(c) }},
 		},
 	})
